@@ -36,7 +36,8 @@ Inductive site :=
   | StorageCount           (* storage/coordinator.go:87-98     "Only one storage module must be configured" *)
   | StorageClass           (* storage/coordinator.go:72-73     "Unknown storage className provided" *)
   | StorageWorkers         (* storage/inmemory.go:133-136      "must be configured with at least one worker" (fix: 746d605) *)
-  | StorageQueueDepth      (* storage/inmemory.go:138          make(chan, queue-depth) with a negative size: runtime error *)
+  | StorageIntervals       (* storage/inmemory.go:137-140      "must be configured with at least one interval" (fix: c110ef6) *)
+  | StorageQueueDepth      (* storage/inmemory.go:142          make(chan, queue-depth) with a negative size: runtime error *)
   | StorageLegacy          (* storage/inmemory.go:139-142      group-whitelist / group-blacklist *)
   | StorageAllow           (* storage/inmemory.go:144-152      group-allowlist does not compile *)
   | StorageDeny            (* storage/inmemory.go:154-162      group-denylist does not compile *)
@@ -50,6 +51,7 @@ Inductive site :=
   | HttpNoCert             (* httpserver/coordinator.go:110-112 "TLS HTTP server specified with missing certificate or key" *)
   | HttpKeyPair            (* httpserver/coordinator.go:113-116 "cannot read TLS certificate or key file" *)
   (* notifier coordinator (per module) *)
+  | NotifierInterval       (* notifier/coordinator.go:178-184  "invalid interval (must be between 1 and 9223372036 seconds)" (fix: 38fa1ff) *)
   | NotifierLegacy         (* notifier/coordinator.go:189-193  group-whitelist / group-blacklist *)
   | NotifierAllow          (* notifier/coordinator.go:196-205  group-allowlist does not compile *)
   | NotifierDeny           (* notifier/coordinator.go:208-217  group-denylist does not compile *)
@@ -107,6 +109,7 @@ Definition panic_violation (p : panic) : violation :=
 Record storage_mod := {
   st_name : str; st_class : cls;
   st_workers : Z;                     (* effective value (default 20): Start makes that many channels and goroutines *)
+  st_intervals : Z;                   (* effective value (default 10): size of every partition's offset ring *)
   st_queue_depth : Z;                 (* effective value (default 1) *)
   st_legacy : bool;                   (* group-whitelist or group-blacklist is set *)
   st_allow : str; st_deny : str }.
@@ -121,6 +124,7 @@ Record listener := {
 
 Record notifier_mod := {
   nt_name : str; nt_class : cls;
+  nt_interval : Z;                    (* effective value in seconds (default 60) *)
   nt_legacy : bool; nt_allow : str; nt_deny : str;
   nt_template_open : str; nt_send_close : bool; nt_template_close : str;
   nt_url_open : str; nt_url_close : str;            (* http *)
@@ -245,11 +249,12 @@ Definition configure_zookeeper (c : config) : option panic :=
 Definition configure_storage_mod (c : config) (m : storage_mod) : option panic :=
   guard (match st_class m with ClsInmemory => true | _ => false end) (PanicString StorageClass (st_name m))
   (guard (1 <=? st_workers m) (PanicString StorageWorkers (st_name m))
+  (guard (1 <=? st_intervals m) (PanicString StorageIntervals (st_name m))
   (guard (0 <=? st_queue_depth m) (PanicError StorageQueueDepth (st_name m))
   (guard (negb (st_legacy m)) (PanicZap StorageLegacy (st_name m))
   (guard (pattern_ok c (st_allow m)) (PanicZap StorageAllow (st_name m))
   (guard (pattern_ok c (st_deny m)) (PanicZap StorageDeny (st_name m))
-   None))))).
+   None)))))).
 
 (* storage/coordinator.go:81-107: no module = default inmemory module, which configures without failure *)
 Definition configure_storage (o : order) (c : config) : option panic :=
@@ -303,8 +308,12 @@ Definition configure_email_notifier (c : config) (m : notifier_mod) : option pan
    None)))).
 
 (* notifier/coordinator.go:179-250: the body of the loop over the modules *)
+Definition max_interval : Z := 9223372036.      (* math.MaxInt64 / int64(time.Second) *)
+Definition interval_ok (m : notifier_mod) : bool := (1 <=? nt_interval m) && (nt_interval m <=? max_interval).
+
 Definition configure_notifier_mod (c : config) (m : notifier_mod) : option panic :=
-  guard (negb (nt_legacy m)) (PanicZap NotifierLegacy (nt_name m))
+  guard (interval_ok m) (PanicString NotifierInterval (nt_name m))
+  (guard (negb (nt_legacy m)) (PanicZap NotifierLegacy (nt_name m))
   (guard (pattern_ok c (nt_allow m)) (PanicZap NotifierAllow (nt_name m))
   (guard (pattern_ok c (nt_deny m)) (PanicZap NotifierDeny (nt_name m))
   (guard (template_ok c (nt_template_open m)) (PanicZap NotifierTemplateOpen (nt_name m))
@@ -314,7 +323,7 @@ Definition configure_notifier_mod (c : config) (m : notifier_mod) : option panic
    | ClsEmail => configure_email_notifier c m
    | ClsNull => None
    | _ => Some (PanicString NotifierClass (nt_name m))
-   end)))).
+   end))))).
 
 Definition configure_notifier (o : order) (c : config) : option panic :=
   scan (configure_notifier_mod c) (ord_notifier o).
@@ -608,6 +617,7 @@ Definition zookeeper_reqs (c : config) : list violation :=
 Definition storage_mod_reqs (c : config) (m : storage_mod) : list violation :=
   viol (match st_class m with ClsInmemory => true | _ => false end) StorageClass (st_name m) ++
   viol (1 <=? st_workers m) StorageWorkers (st_name m) ++
+  viol (1 <=? st_intervals m) StorageIntervals (st_name m) ++
   viol (0 <=? st_queue_depth m) StorageQueueDepth (st_name m) ++
   viol (negb (st_legacy m)) StorageLegacy (st_name m) ++
   viol (pattern_ok c (st_allow m)) StorageAllow (st_name m) ++
@@ -643,6 +653,7 @@ Definition is_email (m : notifier_mod) := match nt_class m with ClsEmail => true
 Definition notifier_mod_reqs (c : config) (m : notifier_mod) : list violation :=
   (* common to every class *)
   viol (match nt_class m with ClsHttp | ClsEmail | ClsNull => true | _ => false end) NotifierClass (nt_name m) ++
+  viol (interval_ok m) NotifierInterval (nt_name m) ++
   viol (negb (nt_legacy m)) NotifierLegacy (nt_name m) ++
   viol (pattern_ok c (nt_allow m)) NotifierAllow (nt_name m) ++
   viol (pattern_ok c (nt_deny m)) NotifierDeny (nt_name m) ++
